@@ -7,10 +7,14 @@
   * `sorted_buffer_add_matches_source` — the array code of `SortedBuffer::add` is re-derived from the
     Rust source on every run (`tools/rs2lean.py`, `Gen/Sbuf.lean`) and proved to compute the model's
     list operation (`Proofs/GenSbuf.lean`).
+
+  * `search_index_matches_source` — the candidate index of `Trees::search` / `Trees::search_best` is
+    re-derived from the Rust source on every run (`Gen/Idx.lean`) and equals the model's `searchIdx`.
 -/
 import LLFreeV.Proofs.SortedBuffer
 import LLFreeV.Proofs.Run
 import LLFreeV.Proofs.GenSbuf
+import LLFreeV.Proofs.GenIdx
 namespace LLFree.C16
 open LLFree SortedBuffer
 
@@ -174,5 +178,13 @@ example : (addAll (fun (a b : Nat) => decide (a ≤ b)) 3 [1, 3, 2, 5, 4]) = [3,
 theorem sorted_buffer_add_matches_source {τ : Type} (le : τ → τ → Bool) (n : Nat) (l : List τ) (v : τ) (hl : l.length ≤ n) :
     Gen.S.add le n (GenTree.embed n l) v = GenTree.embed n (SortedBuffer.add le n l v) :=
   GenTree.sbuf_add_eq le n l v hl
+
+/-- **The visiting order of the tree search is the one of the current source**: the candidate index of
+    `Trees::search` and `Trees::search_best` (alternating after and before the start tree, `usize`/`isize`
+    casts as two's complement) is regenerated from `core/src/trees.rs` on every run (`Gen/Idx.lean`) and
+    equals `searchIdx` of the model. -/
+theorem search_index_matches_source (start n i : Nat) :
+    Gen.I.searchIdx start n i = searchIdx start n i ∧ Gen.I.searchBestIdx start n i = searchIdx start n i :=
+  ⟨GenTree.searchIdx_eq start n i, GenTree.searchBestIdx_eq start n i⟩
 
 end LLFree.C16
